@@ -194,3 +194,60 @@ pub proof fn lemma_ent_scale_prefix0(u: Unit, st: State)
     let x = qpow(factor_of(u), st.power as int);
     assert(1real * x == x);
 }
+
+/// (unit^power with prefix)^n has the n-th power of the scale
+pub proof fn lemma_ent_scale_pow(k: Unit, st: State, n: int)
+    requires proportional_unit(k), i32::MIN <= st.power as int * n <= i32::MAX
+    ensures ent_scale((k, State { power: (st.power as int * n) as i32, prefix: st.prefix })) == qpow(ent_scale((k, st)), n), ent_scale((k, st)) != 0real
+{
+    let p = st.power as int; let pre = st.prefix as int;
+    lemma_ent_scale_ne0((k, st));
+    let f = factor_of(k);
+    let a = qpow(10real, pre * p); let bq = qpow(f, p);
+    lemma_qpow_ne0(10real, pre * p); lemma_qpow_ne0(f, p);
+    lemma_qpow_pow(10real, pre * p, n); lemma_qpow_pow(f, p, n);
+    lemma_qpow_mul_base(a, bq, n);
+    assert((pre * p) * n == pre * (p * n)) by(nonlinear_arith);
+}
+
+/// r is m with every power multiplied by n (n = +-1 keeps every entry)
+pub open spec fn map_scaled(m: Map<Unit, State>, r: Map<Unit, State>, n: int) -> bool {
+    r.dom() =~= m.dom() && (forall|k: Unit| m.contains_key(k) ==> (#[trigger] r[k]).prefix == m[k].prefix && r[k].power as int == m[k].power as int * n)
+}
+
+pub proof fn lemma_map_scaled(m: Map<Unit, State>, r: Map<Unit, State>, n: int)
+    requires m.dom().finite(), map_scaled(m, r, n)
+    ensures forall|b: Unit| mdims(r, b) == n * mdims(m, b),
+        (forall|k: Unit| m.contains_key(k) ==> proportional_unit(k)) ==> mscale(m) != 0real && mscale(r) == qpow(mscale(m), n)
+    decreases m.dom().len()
+{
+    if m.dom().len() == 0 {
+        assert(r.dom().len() == 0);
+        lemma_qpow_one(n);
+        assert forall|b: Unit| mdims(r, b) == n * mdims(m, b) by { assert(n * 0 == 0); }
+    } else {
+        let k = m.dom().choose();
+        assert(m.contains_key(k));
+        let mk = m.remove(k); let rk = r.remove(k);
+        assert(map_scaled(mk, rk, n)) by {
+            assert(rk.dom() =~= mk.dom());
+        }
+        lemma_map_scaled(mk, rk, n);
+        assert forall|b: Unit| mdims(r, b) == n * mdims(m, b) by {
+            lemma_mdims_remove(r, k, b);
+            lemma_mdims_remove(m, k, b);
+            let d = udim(k, b); let p = m[k].power as int;
+            assert(n * (mdims(mk, b) + p * d) == n * mdims(mk, b) + (p * n) * d) by(nonlinear_arith);
+        }
+        if forall|k2: Unit| m.contains_key(k2) ==> proportional_unit(k2) {
+            assert(forall|k2: Unit| mk.contains_key(k2) ==> proportional_unit(k2));
+            lemma_mscale_remove(r, k);
+            lemma_mscale_remove(m, k);
+            lemma_ent_scale_pow(k, m[k], n);
+            assert(r[k] == State { power: (m[k].power as int * n) as i32, prefix: m[k].prefix });
+            let a = mscale(mk); let e = ent_scale((k, m[k]));
+            lemma_qpow_mul_base(a, e, n);
+            assert(a * e != 0real) by(nonlinear_arith) requires a != 0real, e != 0real;
+        }
+    }
+}
